@@ -821,6 +821,8 @@ static size_t safec_etoa(out_fct_type out, const char *funcname, char *buffer,
         const size_t start_idx = idx;
         idx = safec_ftoa(out, funcname, buffer, idx, maxlen,
                          negative ? -value : value, prec, fwidth, flags);
+        if ((long)idx < 0) // already reported
+            return idx;
 
         // output the exponent part
         if (minwidth) {
@@ -837,7 +839,7 @@ static size_t safec_etoa(out_fct_type out, const char *funcname, char *buffer,
             // might need to right-pad spaces
             if (flags & FLAGS_LEFT) {
                 while (idx - start_idx < width) {
-                    out(' ', buffer, idx++, maxlen);
+                    rc = out(' ', buffer, idx++, maxlen);
                     if (unlikely(rc < 0))
                         return rc;
                 }
